@@ -535,9 +535,25 @@ impl<T: Transport + 'static> SyncEngine<T> {
                 continue;
             }
 
-            let task = planner
-                .plan_file_async(file, destination, &self.transport, checksum_db.as_ref())
-                .await?;
+            let mut task = if file.is_symlink {
+                self.plan_symlink(file, destination, &planner, checksum_db.as_ref())
+                    .await?
+            } else {
+                planner
+                    .plan_file_async(file, destination, &self.transport, checksum_db.as_ref())
+                    .await?
+            };
+
+            // A symlink at the destination path is never an up-to-date copy of a
+            // regular file, whatever it points to (the comparison above looked
+            // through it)
+            if !file.is_dir
+                && task.action == SyncAction::Skip
+                && task.source.as_ref().is_some_and(|f| !f.is_symlink)
+                && matches!(self.transport.read_link(&task.dest_path).await, Ok(Some(_)))
+            {
+                task.action = SyncAction::Update;
+            }
             tasks.push(task);
         }
 
@@ -1374,6 +1390,63 @@ impl<T: Transport + 'static> SyncEngine<T> {
 
         // If we got here, either no errors occurred or errors were within the threshold
         Ok(final_stats)
+    }
+
+    /// Plan a symlink entry according to the symlink mode, looking at the
+    /// destination entry itself (never through a destination symlink)
+    async fn plan_symlink(
+        &self,
+        file: &FileEntry,
+        destination: &Path,
+        planner: &StrategyPlanner,
+        checksum_db: Option<&checksumdb::ChecksumDatabase>,
+    ) -> Result<strategy::SyncTask> {
+        let dest_path = destination.join(&file.relative_path);
+        let simple = |action: SyncAction| strategy::SyncTask {
+            source: Some(file.clone()),
+            dest_path: dest_path.clone(),
+            action,
+            source_checksum: None,
+            dest_checksum: None,
+        };
+
+        match self.symlink_mode {
+            // Nothing is transferred for this entry
+            SymlinkMode::Skip => Ok(simple(SyncAction::Skip)),
+            // Up to date iff the destination is a symlink with the same target text
+            SymlinkMode::Preserve => {
+                let dest_link = self.transport.read_link(&dest_path).await.unwrap_or(None);
+                let action = if dest_link.is_some() && dest_link == file.symlink_target {
+                    SyncAction::Skip
+                } else if dest_link.is_some()
+                    || self.transport.exists(&dest_path).await.unwrap_or(false)
+                {
+                    SyncAction::Update
+                } else {
+                    SyncAction::Create
+                };
+                Ok(simple(action))
+            }
+            // The entry stands for the file the link points to
+            SymlinkMode::Follow => match std::fs::metadata(&file.path) {
+                Ok(meta) if !meta.is_dir() => {
+                    let mut target_entry = file.clone();
+                    target_entry.is_symlink = false;
+                    target_entry.symlink_target = None;
+                    target_entry.size = meta.len();
+                    if let Ok(modified) = meta.modified() {
+                        target_entry.modified = modified;
+                    }
+                    target_entry.inode = None;
+                    target_entry.nlink = 1;
+                    planner
+                        .plan_file_async(&target_entry, destination, &self.transport, checksum_db)
+                        .await
+                }
+                // Dangling link or link to a directory: nothing to transfer
+                _ => Ok(simple(SyncAction::Skip)),
+            },
+        }
     }
 
     /// Verify file integrity without modification
